@@ -275,6 +275,29 @@ def run_derived(c):
         keep = [i for i in range(len(f)) if i not in c["delete"]]
         v2, f2 = v, f[keep]
         truth["open"] = True
+    elif kind in ("smallpair", "pierced"):
+        truth["disconnected"] = True
+        truth["selfintersecting"] = True
+        if kind == "smallpair":
+            # two interpenetrating copies of the body shrunk to `ratio` of its size, next to the full-size body some sizes away
+            r_ = c["ratio"]
+            va = v * r_
+            vb = v * r_ + np.array([0.31, 0.27, 0.22]) * r_ * scale
+            parts = [(va, f), (vb, f), (v + np.array([4.0, 0.3, 0.2]) * scale, f)]
+        else:
+            # a body with few large faces pierced by a finely meshed small convex body, entering through a face away from its edges
+            from scipy.spatial import ConvexHull
+
+            k = np.arange(60) + 0.5
+            phi, th = np.arccos(1 - 2 * k / 60), np.pi * (1 + 5 ** 0.5) * k
+            pts = np.c_[np.cos(th) * np.sin(phi), np.sin(th) * np.sin(phi), np.cos(phi)] * (1.0, 0.9, 1.1) * c["radius"] * scale
+            top = v[:, 2].max()
+            ctr = np.array([v[:, 0].min() + c["entry"][0] * np.ptp(v[:, 0]), v[:, 1].min() + c["entry"][1] * np.ptp(v[:, 1]), top])
+            hv, hf = convex_mesh(pts + ctr, [tuple(int(i) for i in t) for t in ConvexHull(pts).simplices])
+            parts = [(v, f), (hv, hf)]
+        v2, f2, ids = combine(parts)
+        order = interleave(np.minimum(ids, 1), c["pattern"])
+        f2 = f2[order]
     elif kind in ("disjoint", "intersecting", "spike"):
         if kind == "disjoint":
             shift = np.array(c["shift"]) * scale
@@ -583,6 +606,20 @@ def enumerate_cases(tier):
                 for sc in scales:
                     cases.append({"part": "derived", "kind": "intersecting", "mesh": name, "shift": shift, "pattern": pattern,
                                   "flipmask": 0, "scale": sc})
+    # interpenetrating parts that are small against the whole mesh; a coarse body pierced by a finely meshed one
+    for name in ("cube", "tetra", "octa"):
+        for ratio in (0.1, 0.01, 0.003, 0.001):
+            for pattern in ("AB", "BA", "alt"):
+                for sc in ((1.0,) if tier == "quick" else scales):
+                    cases.append({"part": "derived", "kind": "smallpair", "mesh": name, "ratio": ratio, "pattern": pattern, "flipmask": 0, "scale": sc})
+    for name in ("cube", "Lprism"):
+        for radius in (0.2, 0.08, 0.03):
+            for entry in ((0.5, 0.5), (0.3, 0.6), (0.7, 0.35), (0.62, 0.71), (0.25, 0.3), (0.45, 0.8)):
+                if name == "Lprism" and entry in ((0.5, 0.5), (0.62, 0.71)):
+                    continue    # the concave corner / the notch of the L: not over the body
+                for pattern in ("AB", "BA"):
+                    cases.append({"part": "derived", "kind": "pierced", "mesh": name, "radius": radius, "entry": list(entry), "pattern": pattern,
+                                  "flipmask": 0, "scale": 1.0})
     for name in ("cube", "Lprism"):
         for pattern in ("AB", "BA", "alt", "alt2"):
             for sc in scales:
